@@ -1,21 +1,16 @@
-(* Finding C19/2 (D18, KNOWN): SwapStateMachine.Recover reads the current state, runs the state's action on the swap
+(* Finding C19/2 (D18, REPAIRED - this file keeps the pre-repair access pattern as a witness): SwapStateMachine.Recover reads the current state, runs the state's action on the swap
    data and persists the swap without the swap's mutex, although RecoverSwaps has put the swap into the active map
    before (lockSwap), so that a message, notification or timeout for the swap is handled by SendEvent - under the
    mutex - at the same time.  Confirmed by the race detector (findings/replays/C19_D18_replay.json: Recover vs
-   setState on Current).  Not repaired: with the mutex held, recovery of a maker whose CSV has matured would run into
-   the synchronous CSV callback of finding C18/1 and block. *)
+   setState on Current).  Repaired together with finding C18/1 (with the mutex held, recovery of a maker whose CSV had matured would have
+   run into the then synchronous CSV callback): Recover now holds the mutex while it looks at the state, runs the
+   action and stores the swap. *)
 From Coq Require Import NArith Bool List.
 Import ListNotations.
 From PS Require Import Gen.Skel Model.Skel Model.C19Corr Proofs.Skel Proofs.C19.
 Open Scope N_scope.
 
-(* (1) the pairs the full skeleton adds when the two calls are not taken out of Recover: all of them are accesses made
-   by actions / the store without a lock that every caller holds *)
-Theorem c19_recover_pairs_present :
-  Nat.ltb 100 (length c19_full_missing) = true.
-Proof. vm_compute. reflexivity. Qed.
-
-(* (2) the pattern as a skeleton of its own:
+(* the pattern as a skeleton of its own:
      f0 Recover   : Rd cur; Call f2                    (cur = SwapStateMachine.Current, field 0; d = a SwapData field, 1)
      f1 SendEvent : Acq m; Wr cur; Call f2; Rel m      (m = the swap's mutex, lock 0)
      f2 Execute   : Wr d *)
